@@ -59,7 +59,10 @@ use crate::internal::cache_padded::CachePadded;
 use std::collections::VecDeque;
 use std::fmt;
 use std::task::{Context, Poll, Waker};
+#[cfg(not(all(excsn_fibre_verif, excsn_fibre_verif_shuttle)))]
 use std::time::{Duration, Instant};
+#[cfg(all(excsn_fibre_verif, excsn_fibre_verif_shuttle))]
+use {crate::internal::sync::Instant, std::time::Duration};
 
 use crate::internal::sync::{thread, AtomicU8, Mutex, Ordering, Thread};
 
